@@ -2,7 +2,7 @@ ID = "C18"
 TESTS = [
     T("nfs40sim", "TestC18NFS40OpenAccounting",
       {"checks": 3000, "shards": 2, "timeout": 300},
-      {"checks": 60000, "shards": 16, "timeout": 1500}),
+      {"checks": 40000, "shards": 5, "timeout": 1500}),
 ]
 ASSUMPTIONS = [
     "NFSv4.0: the reference model mirrors the documented laziness of the server: expired leases and unused open-owners are reclaimed by the next call that enters the server; closes that belong to a request are carried out when that request returns (so equality of open counts is asserted when no request is in flight, a lower bound otherwise)",
